@@ -20,6 +20,42 @@ PROPS = {
     },
 }
 
+BOARD_IMPL = ['Impl/ImplBoard.v']
+PENDING = 'oracle and correspondence with kernel-checked tie lemmas; property theorems pending (see DESIGN.md section 9)'
+
+def _board(pid, cases, rule, expl, extra_files=(), level='other'):
+    return {
+        'coq_targets': ['Impl/ImplBoard.vo'] + [f + 'o' for f in extra_files],
+        'obligation_files': BOARD_IMPL + list(extra_files),
+        'cases': cases,
+        'level': level,
+        'rule': rule,
+        'explanation': expl,
+        'assumptions': ['legal position = wf_b of coq/Model/Abs.v (one king per side, no pawn on ranks 1/8, castling right => king and rook at home, consistent e.p. target, side not to move not in check)'],
+        'trusted_base': [],
+        'level_text': PENDING + '. ' + expl,
+        'level_note': 'Trusted: Coq kernel for the Impl_* lemmas (model constants / finite-domain helpers = values dumped from the running code); the extracted specification (coq/Spec) as oracle; the harness.',
+    }
+
+PROPS['C01'] = _board('C01', ['C01'],
+    'positions: curated set (6 perft positions, castling skeletons, e.p. pins, promotion races, mates), random playouts from them with a 30% bias to special moves, synthetic odd-material positions; a case is non-trivial when the position is legal (wf_b); classes count checks, castling, e.p., promotions, illegal pseudo-legal moves. Perft 2 (quick) / 3 (thorough) against the specification.',
+    'Implementation legal-move set (origin, destination, promotion) and per-move metadata compared with the FIDE specification spec_legal of coq/Spec/Chess.v on every generated legal position; model pseudo_legal_moves/pos_move compared with the implementation (multiset of moves with legality flags).')
+PROPS['C02'] = _board('C02', ['C02'],
+    'every pseudo-legal move of generated positions with the full successor (14 piece words, 4 rotated words, rights, e.p.) and the origin re-dumped; attack/check queries on all 64 squares; 120-ply playouts ending in queries and movegen.',
+    'Successor dumped from Go compared word for word with the model pos_move, checked against the representation invariant inv_b (all views agree), against the specification apply_move through the abstraction abs_pos, and for legality of the successor; origin position must be unchanged.')
+PROPS['C06'] = _board('C06', ['C06'],
+    'structured sweep: every square x every occupancy of each of its four lines (a third of the 128-state lines in the quick tier) with the rest empty, each again with one other square toggled; random occupancies of three densities; pawn boards on random pawn sets; check / checkmate / attacked-square queries on generated positions.',
+    'Rook/Bishop/King/Knight attack boards and pawn capture boards of the implementation compared with the model (table lookup on the dumped tables) and with geometric ray walking (coq/Spec/Chess.v attacks_from); derived queries compared with the specification.')
+PROPS['C05'] = _board('C05', ['C05'],
+    'board scripts (push / pop / fork / select / adjudicate with every getter observed after every operation) over 3 Zobrist seeds: scripted repetition (from the start position, after a capture, around castling, across a fork), fifty-move clocks 0/90/95/98/99/100 from FEN, insufficient-material endings by capture on random bishop squares and by under-promotion, mate/stalemate adjudication, random scripts and shuffle-heavy games.',
+    'Result after every PushMove compared with the game specification coq/Spec/Game.v (occurrences >= 3 / >= 5, half-move clock >= 100 counted on from set-up, insufficient material after capture or under-promotion; never drawn otherwise); adjudication vs in_check.')
+PROPS['C07'] = _board('C07', ['C07'],
+    'the same board scripts as C05/C08 for Zobrist seeds 0, 1 and a seed derived from VERIF_SEED; after every operation the incremental Board.Hash() is compared with ZobristTable.Hash(position, turn) computed from scratch by the implementation and with the model zhash on the dumped keys.',
+    'Incremental hash = scratch hash after every push/pop/fork on the implementation; model zmove/zhash (arbitrary key table) agree with the implementation on the dumped keys.')
+PROPS['C08'] = _board('C08', ['C08'],
+    'the same board scripts: every getter (position, turn, hash, clock, ply, full moves, castled flags, last / second-to-last move, HasMoved(3), HasMoved(1000), result, repetition count) recorded before each successful push and compared after the matching pop; boards re-selected after operations on their forks / parents must report what they reported last; pops never go below a fork point.',
+    'Take-back restores every getter at any nesting depth; forks and parents are isolated above the fork point; fork reports what its parent reports; heap model of coq/Model/Board.v compared with the implementation after every operation.')
+
 # Every listed property is claimed; reasons would go here otherwise.
 NOT_APPLICABLE = [
     {'property_id': pid, 'reason': 'check not built yet in this session (work in progress; see DESIGN.md section 9)'}
